@@ -1,9 +1,34 @@
 (* C03 Linearizable replicated operations, truthful futures
-   Full-strength statement: C01_statement (order) + future truth (Cluster/Statements.v). Proved so far: the theorems below; what is
-   not yet proved is decided on every run by the lock-step co-simulation (model = implementation on every
-   explored schedule) together with the monitors run on the implementation's own observations. *)
-From RaftV Require Import Cluster.Statements Proofs.RVSpec Proofs.AESpec Proofs.CommitSpec.
+   Full-strength statement: C01_statement (order) + future truth (Cluster/Statements.v). Proved at cluster level for
+   executions without membership changes and snapshots: C03_applied_at_most_once (within one incarnation a node
+   applies each index at most once), C03_answered_operation_is_the_applied_one (a future answered successfully
+   names the log position and bytes that every node applying that position applies; uses `classic`), together
+   with C01_state_machine_safety_partial (one total order of applied operations: the log index). NOT proved:
+   that this order is consistent with the real-time order of acknowledged submissions (linearizability proper) and
+   that the bytes are those submitted under that future; these are decided on every run by the lock-step
+   co-simulation (model = implementation on every explored schedule) together with the monitors run on the
+   implementation's own observations (the future-truth monitor: submitted bytes, reported position against what
+   was applied there). *)
+From RaftV Require Import Cluster.World Cluster.Statements Proofs.RVSpec Proofs.AESpec Proofs.CommitSpec.
+From RaftV Require Import Proofs.ConfStatic Proofs.ApplyOnce Proofs.LCAck.
 Open Scope N_scope.
+
+(* cluster level, every execution without membership changes and snapshots: between two restores a node hands each
+   log index to its state machine at most once *)
+Theorem C03_applied_at_most_once : forall ids boot et ld ls, static ls = true -> nosnap ls = true ->
+  forall n, In n (w_nodes (run (init_world ids boot et ld) ls)) -> NoDup (map (fun x : N * N * N => fst (fst x)) (n_applies n)).
+Proof. exact applied_at_most_once. Qed.
+Print Assumptions C03_applied_at_most_once.
+
+(* a future answered with FOp index term payload: every application of that index, on any node, at any later point,
+   in any incarnation, is that term and payload *)
+Theorem C03_answered_operation_is_the_applied_one : forall ids boot et ld ls1 ls2,
+  static (ls1 ++ ls2) = true -> nosnap (ls1 ++ ls2) = true ->
+  let w1 := run (init_world ids boot et ld) ls1 in
+  let w2 := run w1 ls2 in
+  forall i t p t' p', acked_op w1 i t p -> applied_in w2 i t' p' -> t = t' /\ p = p'.
+Proof. exact acknowledged_then_applied. Qed.
+Print Assumptions C03_answered_operation_is_the_applied_one.
 
 (* becomeFollower (every term change, every step-down) never touches the commit index, the applied index, the
    snapshot boundary, the stored snapshots, the state machine or its apply history *)
